@@ -179,6 +179,21 @@ class WorldCheck:
     def request(self, scen, pats, result, dry=False, syntax=False, stdin=False):
         blocks = self.blocks(scen, pats)
         confok = blocks is not None
+        env, files, devs, tr, notes = self._parts(scen, result, dry, syntax, stdin, confok)
+        req = 'M conform %s %s %s %s %s %s' % (blob(env), blob('\n'.join(blocks or [])), files, blob(devs),
+                                                hx(scen.stdin or b''), blob('\n'.join(tr)))
+        return req, tr, notes
+
+    def request_text(self, scen, result, defs=(), dry=False, syntax=False, stdin=False):
+        """The same scenario for `M conformtext`: the configuration as the TEXT of the file (the parser model decides and builds
+        the trees, `Model.mainText`); `defs` are the -D options as (name, value) byte strings."""
+        env, files, devs, tr, notes = self._parts(scen, result, dry, syntax, stdin, False)
+        dlines = '\n'.join('%s %s' % (hx(k), hx(v)) for k, v in defs)
+        req = 'M conformtext %s %s %s %s %s %s %s' % (blob(env), blob(scen.config), blob(dlines), files, blob(devs),
+                                                      hx(scen.stdin or b''), blob('\n'.join(tr)))
+        return req, tr, notes
+
+    def _parts(self, scen, result, dry, syntax, stdin, confok):
         env = ' '.join([proc.PIN['VSHIM_TIME'], proc.PIN['VSHIM_PID'], hx(proc.PIN['VSHIM_HOST'].encode()), proc.PIN['VSHIM_RANDOM'],
                         hx(os.path.join(scen.root, 'tmp').encode()), hx(os.path.join(scen.root, 'home').encode()),
                         hx(os.path.join(scen.root, 'conf').encode()), '1' if dry else '0', '1' if syntax else '0', '1' if stdin else '0',
@@ -197,9 +212,7 @@ class WorldCheck:
             lines.append('%s - -' % hx(d.encode('latin-1')))
         devs = '\n'.join('%s %d' % (hx(p.encode('latin-1')), i + 1) for i, p in enumerate(scen.devmap))
         tr, notes = canon_trace(result.trace)
-        req = 'M conform %s %s %s %s %s %s' % (blob(env), blob('\n'.join(blocks or [])), blob('\n'.join(lines)), blob(devs),
-                                                hx(scen.stdin or b''), blob('\n'.join(tr)))
-        return req, tr, notes
+        return env, blob('\n'.join(lines)), devs, tr, notes
 
     def verdict(self, reqs):
         return vlib.run_batch(self.driver, reqs)
